@@ -438,10 +438,10 @@ func TestVerifC08(t *testing.T) {
 				kept = append(kept, h)
 			}
 		}
-		maxPlans := verifkit.Pick(260, 1500)
+		maxPlans := verifkit.Pick(260, 900)
 		if sc.window > 0 {
-			// the backlog scenarios are long (many re-injections): a thinner sample of pair plans in the quick tier
-			maxPlans = verifkit.Pick(50, 600)
+			// the backlog scenarios are long (many re-injections): a thinner sample of pair plans
+			maxPlans = verifkit.Pick(50, 200)
 		}
 		if len(kept) > maxPlans {
 			k := (len(kept) + maxPlans - 1) / maxPlans
